@@ -64,7 +64,7 @@ theorem parseLctHeader_cases (d : List Nat) :
                 slice_ok _ _ _ (by omega) (by omega)]
             simp only [Out.bind_ok]
             refine .inr ⟨_, rfl, ?_⟩
-            constructor <;> simp only [] <;> omega
+            constructor <;> first | omega | (dsimp only; omega)
 
 theorem parseLctHeader_total (d : List Nat) : (parseLctHeader d).isPanic = false := by
   rcases parseLctHeader_cases d with h | ⟨l, h, _⟩ <;> rw [h] <;> rfl
@@ -153,4 +153,143 @@ theorem getExt_total (d : List Nat) (l : LctHeader) (ext : Nat) (h : HdrInv d l)
   rcases getExt_cases d l ext h with h | h | ⟨r, h, _⟩ <;> rw [h] <;> rfl
 
 end Lct
+end Flute
+
+namespace Flute
+open Flute.Bytes Flute.Lct Flute.Fti Flute.Alc Flute.Ntp
+
+namespace Fti
+
+theorem fld_ok (fti : List Nat) (i j : Nat) (h1 : i ≤ j) (h2 : j ≤ fti.length) :
+    fld fti i j = .ok (beVal ((fti.drop i).take (j - i))) := by
+  unfold fld; rw [slice_ok _ _ _ h1 h2]; rfl
+
+theorem getFtiNoCode_total (fti : List Nat) : (getFtiNoCode fti).isPanic = false := by
+  unfold getFtiNoCode
+  split
+  · rfl
+  · rename_i h
+    rw [idx_ok fti 1 (by omega)]; simp only [Out.bind_ok]
+    split
+    · rfl
+    · rw [fld_ok _ _ _ (by omega) (by omega), fld_ok _ _ _ (by omega) (by omega),
+          fld_ok _ _ _ (by omega) (by omega)]; rfl
+
+theorem getFtiRs28_total (fti : List Nat) : (getFtiRs28 fti).isPanic = false := by
+  unfold getFtiRs28
+  split
+  · rfl
+  · rename_i h
+    rw [idx_ok fti 1 (by omega)]; simp only [Out.bind_ok]
+    split
+    · rfl
+    · rw [fld_ok _ _ _ (by omega) (by omega), fld_ok _ _ _ (by omega) (by omega),
+          idx_ok fti 10 (by omega), idx_ok fti 11 (by omega)]; rfl
+
+theorem getFtiRs28Us_total (fti : List Nat) : (getFtiRs28Us fti).isPanic = false := by
+  unfold getFtiRs28Us
+  split
+  · rfl
+  · rename_i h
+    rw [idx_ok fti 1 (by omega)]; simp only [Out.bind_ok]
+    split
+    · rfl
+    · rw [fld_ok _ _ _ (by omega) (by omega), fld_ok _ _ _ (by omega) (by omega),
+          fld_ok _ _ _ (by omega) (by omega), fld_ok _ _ _ (by omega) (by omega),
+          fld_ok _ _ _ (by omega) (by omega)]; rfl
+
+theorem getFtiRs2m_total (fti : List Nat) : (getFtiRs2m fti).isPanic = false := by
+  unfold getFtiRs2m
+  split
+  · rfl
+  · rename_i h
+    rw [idx_ok fti 1 (by omega)]; simp only [Out.bind_ok]
+    split
+    · rfl
+    · rw [fld_ok _ _ _ (by omega) (by omega), idx_ok fti 8 (by omega), idx_ok fti 9 (by omega),
+          fld_ok _ _ _ (by omega) (by omega), fld_ok _ _ _ (by omega) (by omega),
+          fld_ok _ _ _ (by omega) (by omega)]; rfl
+
+theorem getFtiRaptorQ_total (fti : List Nat) : (getFtiRaptorQ fti).isPanic = false := by
+  unfold getFtiRaptorQ
+  split
+  · rfl
+  · rename_i h
+    rw [fld_ok _ _ _ (by omega) (by omega), fld_ok _ _ _ (by omega) (by omega), idx_ok fti 10 (by omega),
+        fld_ok _ _ _ (by omega) (by omega), idx_ok fti 13 (by omega)]
+    simp only [Out.bind_ok]
+    repeat' split
+    all_goals rfl
+
+theorem getFtiRaptor_total (fti : List Nat) : (getFtiRaptor fti).isPanic = false := by
+  unfold getFtiRaptor
+  split
+  · rfl
+  · rename_i h
+    rw [fld_ok _ _ _ (by omega) (by omega), fld_ok _ _ _ (by omega) (by omega),
+        fld_ok _ _ _ (by omega) (by omega), idx_ok fti 14 (by omega), idx_ok fti 15 (by omega)]
+    simp only [Out.bind_ok]
+    repeat' split
+    all_goals rfl
+
+theorem getFtiBytes_total (fec : Nat) (fti : List Nat) (hk : knownFec fec = true) :
+    (getFtiBytes fec fti).isPanic = false := by
+  unfold getFtiBytes
+  repeat' split
+  · exact getFtiNoCode_total _
+  · exact getFtiRs28_total _
+  · exact getFtiRs28Us_total _
+  · exact getFtiRs2m_total _
+  · exact getFtiRaptorQ_total _
+  · exact getFtiRaptor_total _
+  · simp only [knownFec, NOCODE, RS28, RS28US, RS2M, RAPTORQ, RAPTOR, decide_eq_true_eq] at *
+    omega
+
+theorem getFti_total (fec : Nat) (d : List Nat) (l : LctHeader) (h : HdrInv d l) (hk : knownFec fec = true) :
+    (getFti fec d l).isPanic = false := by
+  unfold getFti
+  apply Out.isPanic_bind _ _ (getExt_total d l _ h)
+  intro r _
+  cases r with
+  | none => rfl
+  | some fti =>
+    apply Out.isPanic_bind _ _ (getFtiBytes_total fec fti hk)
+    intro v _; rfl
+
+theorem getPayloadId_total (oti : Oti) (d : List Nat) (a p : Nat) (h1 : a ≤ p) (h2 : p ≤ d.length)
+    (hk : knownFec oti.fecId = true) : (getPayloadId oti d a p).isPanic = false := by
+  unfold getPayloadId
+  rw [slice_ok _ _ _ h1 h2]; simp only [Out.bind_ok]
+  repeat' split
+  all_goals first | rfl | skip
+  simp only [knownFec, NOCODE, RS28, RS28US, RS2M, RAPTORQ, RAPTOR, decide_eq_true_eq] at *
+  omega
+
+end Fti
+
+namespace Alc
+
+theorem parseSct_total (ext : List Nat) (h : 4 ≤ ext.length) : (parseSct ext).isPanic = false := by
+  unfold parseSct
+  rw [if_neg (by omega), idx_ok ext 2 (by omega)]; simp only [Out.bind_ok]
+  split
+  · rfl
+  · rename_i hl
+    split
+    · rfl
+    · rename_i hhi
+      have hhi' : ext[2] / 128 % 2 = 1 := by omega
+      rw [fld_ok _ _ _ (by omega) (by omega)]; simp only [Out.bind_ok]
+      split
+      · rename_i hlo
+        rw [fld_ok _ _ _ (by omega) (by omega)]; simp only [Out.bind_ok]
+        apply Out.isPanic_bind
+        · unfold ntpToSystemTime
+          simp only [Nat.reducePow]
+          have hb1 := beVal_lt (List.take (8 - 4) (List.drop 4 ext))
+          sorry
+        · intro v _; rfl
+      · sorry
+
+end Alc
 end Flute
